@@ -98,6 +98,7 @@ def calibrate():
         'transfer_return_basic_none': [0, 0], 'transfer_return_const_none': [0, 0],
         'transfer_return_string_full': [0, 0], 'nullable_gpointer': [0, 0],
         'returned_char_pp_array_of_utf8': [0, 0],
+        'gstrv_signal_parameter_array_of_utf8': [0, 0], 'callback_own_user_data_closure': [0, 0],
         'closure_predicted': [0, 0], 'destroy_notified_predicted': [0, 0], 'async_scope_predicted': [0, 0],
         'throws_callables': 0, 'trailing_gerror_still_parameter': 0,
         'hard_mismatches': [], 'soft_disagreements_sample': [],
@@ -177,6 +178,23 @@ def calibrate():
                     res['returned_char_pp_array_of_utf8'][0] += 1
                     if len(inner) == 1 and inner[0].get('name') in ('utf8', 'filename'):
                         res['returned_char_pp_array_of_utf8'][1] += 1
+            # ---------------- GStrv-typed parameters (known by GType name: the strv test signals)
+            if e.tag == 'glib:signal' and 'strv' in (e.get('name') or ''):
+                for p in e.params()[1]:
+                    t = p.type_el()
+                    res['gstrv_signal_parameter_array_of_utf8'][0] += 1
+                    inner = t.findall('type') if t is not None else []
+                    ok = t is not None and t.tag == 'array' and t.get('name') is None and len(inner) == 1 \
+                        and inner[0].get('name') == 'utf8'
+                    res['gstrv_signal_parameter_array_of_utf8'][1] += ok
+                    hard(ok, '%s: signal %s: GStrv parameter is not an array of utf8' % (os.path.basename(f), e.get('name')))
+            # ---------------- a callback's own user_data parameter
+            if e.tag == 'callback':
+                for i, p in enumerate(e.params()[1]):
+                    t = p.type_el()
+                    if t is not None and t.tag == 'type' and t.get('name') == 'gpointer' and p.get('name') == 'user_data':
+                        soft('callback_own_user_data_closure', p.get('closure') == str(i),
+                             '%s %s(user_data)' % (os.path.basename(f), e.get('name')), None)
             # ---------------- callables
             if e.tag in ('function', 'method', 'constructor', 'callback', 'virtual-method'):
                 cid = e.get('c:identifier') or e.get('c:type') or e.get('name')
@@ -276,7 +294,8 @@ def calibrate():
     for rule in ('transfer_in_none', 'transfer_out_full', 'transfer_out_caller_allocates_none',
                  'transfer_return_basic_none', 'transfer_return_const_none', 'transfer_return_string_full',
                  'nullable_gpointer', 'closure_predicted', 'destroy_notified_predicted', 'async_scope_predicted',
-                 'returned_char_pp_array_of_utf8'):
+                 'returned_char_pp_array_of_utf8', 'gstrv_signal_parameter_array_of_utf8',
+                 'callback_own_user_data_closure'):
         n, ok = res[rule]
         if n == 0:
             res['hard_mismatches'].append('rule %s has no instance in the expected GIRs' % rule)
